@@ -342,9 +342,10 @@ class Engine(object):
         try:
             if single:
                 c = cmds[0]
+                n_args = self.cur_n_args = 3 - self.tape.draw_small(4, 0.3)
                 result = self.conn.send_scp(
                     self.buffer_size, c.x, c.y, c.p, c.cmd, c.id, c.arg2,
-                    c.arg3, c.data, 3, c.extra)
+                    c.arg3, c.data, n_args, c.extra)
                 # send_scp installs its own callback
                 c.callbacks = 1
             else:
@@ -388,10 +389,44 @@ class Engine(object):
             if single:
                 c = cmds[0]
                 p = result
-                ok = (p.cmd_rc == 0x80 and p.arg1 == c.id and
-                      p.seq == c.seq and
-                      (0x80, p.arg2, bytes(p.data)) in c.replies and
-                      p.arg3 == (0xabcd0000 | c.seq))
+                # the reply carries three words (id, copy, marker) and the
+                # token bytes; with expected_args = n the first n words are
+                # arguments and the rest stays in the data
+                n_args = self.cur_n_args
+                words = [c.id, None, 0xabcd0000 | c.seq]
+                ok = p.cmd_rc == 0x80 and p.seq == c.seq
+                got_args = [p.arg1, p.arg2, p.arg3]
+                raw_tail = b""
+                for i in range(3):
+                    if i < n_args:
+                        if i != 1 and got_args[i] != words[i]:
+                            ok = False
+                    else:
+                        if got_args[i] is not None:
+                            ok = False
+                if n_args >= 2:
+                    copy = p.arg2
+                    token = bytes(p.data)[4 * 0:] if n_args == 3 else \
+                        bytes(p.data)[4:]
+                    if n_args == 2 and bytes(p.data)[:4] != wire.p32(
+                            words[2]):
+                        ok = False
+                else:
+                    d = bytes(p.data)
+                    skip = 4 * (3 - n_args)
+                    if len(d) < skip:
+                        ok = False
+                        copy, token = None, b""
+                    else:
+                        hdr = d[:skip]
+                        copy = wire.u32(hdr, skip - 8)
+                        if hdr[skip - 4:skip] != wire.p32(words[2]):
+                            ok = False
+                        if n_args == 0 and hdr[:4] != wire.p32(c.id):
+                            ok = False
+                        token = d[skip:]
+                if ok and (0x80, copy, token) not in c.replies:
+                    ok = False
                 if not ok:
                     w.violate("X2", "send_scp returned a packet that is not a "
                               "reply to its command %d: %r" % (c.id, p),
